@@ -12,9 +12,10 @@ Proof. unfold std, CF, cfg_fixed, RSV. vm_compute. repeat split; discriminate. Q
 Lemma std_CC : std CC.
 Proof. unfold std, CC, cfg_current, RSV. vm_compute. repeat split; discriminate. Qed.
 
-(* the reserve covers the longest unchecked run of the repaired printer: the delimiters of a name, one number
-   with its terminator, separators and a bracket *)
-Lemma reserve_covers_runs : 5 <= PRINT_NUM_WRITE_MAX /\ PRINT_NUM_WRITE_MAX + 6 <= PRINT_RESERVE.
+(* the reserve covers the longest unchecked run of the repaired printer, exactly: quote, colon, space (3), one
+   number with its terminator (PRINT_NUM_WRITE_MAX, measured), comma, newline, and the terminator a flush of the
+   growing buffer stores before it enlarges the block.  With the measured 25 this is reserve >= 30. *)
+Lemma reserve_covers_runs : 6 <= PRINT_NUM_WRITE_MAX /\ PRINT_NUM_WRITE_MAX + 5 <= PRINT_RESERVE.
 Proof. vm_compute. split; discriminate. Qed.
 
 (* ---------------------------------------------------------------- no overrun, termination *)
@@ -152,60 +153,3 @@ Proof.
   unfold observe. cbn [r_ret]. destruct (err s' =? 0) eqn:E0; [lia|reflexivity].
 Qed.
 
-(* ---------------------------------------------------------------- defects of the pinned code *)
-Definition F0 : flags := mkflags 0 false false.
-Definition F2 : flags := mkflags 2 false false.
-
-(* (1) print_ex never returns when the fixed buffer is exactly the reserve *)
-Lemma print_ex_nonterminating :
-  exists l, forall fuel,
-    ex_loop CC fuel (check CC (init CC Fixed PRINT_RESERVE [])) l = None.
-Proof.
-  exists [116]. intros fuel. apply ex_loop_diverges; try reflexivity. discriminate.
-Qed.
-
-(* (2) closing brackets are unchecked: a table chain 70 deep printed without indentation into a fixed buffer
-   of 420 bytes stores outside the buffer *)
-Lemma closing_run_exceeds_reserve :
-  exists v sz s',
-    wfv PRINT_NUM_WRITE_MAX v = true /\ PRINT_RESERVE <= sz /\
-    run CC (root_ops ocfg_current F0 v) (init CC Fixed sz []) = Some s' /\ viol s' = true /\
-    chk CF 0 (root_ops ocfg_current F0 v) = None.
-Proof.
-  exists (chain 70), 420.
-  destruct (run CC (root_ops ocfg_current F0 (chain 70)) (init CC Fixed 420 [])) as [s'|] eqn:E;
-    [|vm_compute in E; discriminate].
-  exists s'. split; [vm_compute; reflexivity|]. split; [vm_compute; discriminate|]. split; [reflexivity|].
-  split; [|vm_compute; reflexivity].
-  assert (G : option_map viol (run CC (root_ops ocfg_current F0 (chain 70)) (init CC Fixed 420 [])) = Some true)
-    by (vm_compute; reflexivity).
-  rewrite E in G. cbn [option_map] in G. some_inj G. exact G.
-Qed.
-
-(* (3) element separators of table and union vectors are unchecked: forty NONE members of a union vector,
-   pretty printed or not *)
-Definition nulls : value := VTable [VField [117; 118] (VVec VkSep (repeat VNull 40))].
-Lemma separator_run_exceeds_reserve :
-  exists sz s',
-    PRINT_RESERVE <= sz /\
-    run CC (root_ops ocfg_current F2 nulls) (init CC Fixed sz []) = Some s' /\ viol s' = true /\
-    chk CF 0 (root_ops ocfg_current F2 nulls) = None.
-Proof.
-  exists 100.
-  destruct (run CC (root_ops ocfg_current F2 nulls) (init CC Fixed 100 [])) as [s'|] eqn:E;
-    [|vm_compute in E; discriminate].
-  exists s'. split; [vm_compute; discriminate|]. split; [reflexivity|]. split; [|vm_compute; reflexivity].
-  assert (G : option_map viol (run CC (root_ops ocfg_current F2 nulls) (init CC Fixed 100 [])) = Some true)
-    by (vm_compute; reflexivity).
-  rewrite E in G. cbn [option_map] in G. some_inj G. exact G.
-Qed.
-
-(* (4) base64 makes no progress in the two buffer modes when 1..3 bytes remain below pflush *)
-Lemma base64_no_progress :
-  exists s l, md s = Dynamic /\ (exists pre, s = puts (init CC Dynamic 100 []) pre) /\
-    forall fuel, b64_loop CC fuel s l = None.
-Proof.
-  exists (puts (init CC Dynamic 100 []) (repeat 65 34)), (repeat 66 8).
-  split; [reflexivity|]. split; [eexists; reflexivity|].
-  intros fuel. apply b64_loop_diverges; [reflexivity|discriminate| |]; vm_compute; [split; reflexivity|reflexivity].
-Qed.
